@@ -45,7 +45,7 @@ type Node struct {
 	All   map[wire.Hash]*Block
 	Txs   map[wire.Hash]*wire.MsgTx // every transaction ever mined or relayed
 	Queue []Notif
-	nonce uint64
+	Nonce uint64
 
 	bc     *blockchain.Blockchain
 	bcTip  wire.Hash
@@ -101,7 +101,7 @@ func (n *Node) Height() uint64 { return n.Tip().Height }
 
 // CoinbaseTx builds a coinbase paying value to pkScript; the payload makes it unique.
 func (n *Node) CoinbaseTx(height uint64, pkScript []byte, value int64) *wire.MsgTx {
-	n.nonce++
+	n.Nonce++
 	tx := wire.NewMsgTx()
 	tx.Version = wire.TxVersion
 	in := wire.NewTxIn(wire.NewOutPoint(&zeroHash, math.MaxUint32), nil)
@@ -110,7 +110,7 @@ func (n *Node) CoinbaseTx(height uint64, pkScript []byte, value int64) *wire.Msg
 	tx.AddTxOut(&wire.TxOut{Value: value, PkScript: pkScript})
 	p := make([]byte, 16)
 	binary.LittleEndian.PutUint64(p, height)
-	binary.LittleEndian.PutUint64(p[8:], n.nonce)
+	binary.LittleEndian.PutUint64(p[8:], n.Nonce)
 	tx.Payload = p
 	return tx
 }
@@ -330,7 +330,7 @@ func (n *Node) SelfCheck() error {
 // Server adapts a Node to masswallet.Server.
 type Server struct{ N *Node }
 
-func (s *Server) ChainDB() database.Db         { return s.N.DB }
+func (s *Server) ChainDB() database.Db          { return s.N.DB }
 func (s *Server) TxMemPool() *blockchain.TxPool { return s.N.pool }
 
 // Blockchain returns a real blockchain.Blockchain whose block tree reflects the chain
